@@ -13,8 +13,10 @@
 (*   ch     content hash of the subtree as data (mappings and multisets    *)
 (*          as bags, lists positional, scalar type significant)            *)
 (*   lh     loose content hash: as ch, but an absent XML text and a        *)
-(*          whitespace-only one coincide (C12's "modulo surrounding        *)
-(*          whitespace"); numbers and booleans are NOT loosened: 1, 1.0    *)
+(*          whitespace-only one coincide, and XML text is taken modulo      *)
+(*          surrounding whitespace (layout, not data: the equality the     *)
+(*          anchors of C02 name; "equal as data" in BOTH directions of     *)
+(*          C02); numbers and booleans are NOT loosened: 1, 1.0            *)
 (*          and true are three different values (finding F29)              *)
 (*   size   the node's size in the cost model (informational)              *)
 (*                                                                         *)
@@ -192,16 +194,17 @@ RootF == CHOOSE i \in 1..Len(F) : F[i].parent = 0
 RootT == CHOOSE j \in 1..Len(T) : T[j].parent = 0
 WholeClauses == <<
   <<"C02", "documents-differ-but-total-cost-is-zero", total = 0 => F[RootF].lh = T[RootT].lh>>,
-  <<"C02", "documents-are-equal-but-total-cost-is-positive", total > 0 => F[RootF].ch # T[RootT].ch>>,
+  <<"C02", "documents-are-equal-but-total-cost-is-positive", total > 0 => F[RootF].lh # T[RootT].lh>>,
   <<"C02", "documents-differ-but-nothing-is-marked-as-changed", nonkeep = 0 => F[RootF].lh = T[RootT].lh>>,
-  <<"C02", "documents-are-equal-but-something-is-marked-as-changed", nonkeep > 0 => F[RootF].ch # T[RootT].ch>> >>
+  <<"C02", "documents-are-equal-but-something-is-marked-as-changed", nonkeep > 0 => F[RootF].lh # T[RootT].lh>> >>
 
-\* v: [top, edited, flat, hadEdits, ann, annRemoved, annInserted] - the other observation points of the same comparison
+\* v: [top, edited, flat, hadEdits, ann, annRemoved, annInserted, chained, partsFirst] - the other observation points of the same comparison
 ViewClauses(v) == <<
   <<"C03", "annotated-tree-cost-differs-from-script-total", v.edited = total>>,
   <<"C03", "flat-edit-list-cost-differs-from-script-total", v.flat = total>>,
   <<"C03", "refined-top-level-cost-differs-from-script-total", v.top = total>>,
   <<"C03", "annotated-tree-of-a-chained-diff-differs-from-script-total", v.chained = total>>,
+  <<"C03", "annotated-tree-cost-asked-after-its-parts-were-refined-differs-from-script-total", v.partsFirst = total>>,
   <<"C01", "annotated-tree-removals-differ-from-script", v.ann => v.annRemoved = removed>>,
   <<"C01", "annotated-tree-insertions-differ-from-script", v.ann => v.annInserted = inserted>>,
   <<"C02", "library-reports-edits-differently-from-total", v.hadEdits = (total > 0)>> >>
